@@ -37,10 +37,12 @@ type World struct {
 	Roots  []string
 	Disk   *simos.Disk
 	Badger *simbadger.Faults
-	DB     fs_db.DB
-	C      *di.Container
-	Ctx    context.Context
-	Link   any // the simulated gRPC link, if one was created
+	// Reversed: the configuration lists the roots in reverse order (toggled at a reopen)
+	Reversed bool
+	DB       fs_db.DB
+	C        *di.Container
+	Ctx      context.Context
+	Link     any // the simulated gRPC link, if one was created
 	// Dropped[i]: root i has been taken out of the configuration (an operator removed it before a
 	// restart); what it holds stays readable, nothing new may be put there
 	Dropped map[int]bool
@@ -152,6 +154,12 @@ func (w *World) Config() config.Config {
 	for i, r := range w.Roots {
 		if !w.Dropped[i] {
 			roots = append(roots, r)
+		}
+	}
+	if w.Reversed {
+		// the operator lists the same roots in another order
+		for i, j := 0, len(roots)-1; i < j; i, j = i+1, j-1 {
+			roots[i], roots[j] = roots[j], roots[i]
 		}
 	}
 	return w.ConfigFor(w.DBDir, roots)
